@@ -6,8 +6,11 @@ PROP = dict(
          'null incl. self-assignment and moves from empty handles, destroy, compare, dereference; after EVERY op useCount() == creator refs + '
          'live handles for every live object, destructor log == model (destroyed exactly once, by the op that released the last reference). '
          'Thread programs: 1..8 threads, each owning handles to 1..3 shared objects and copying / moving / dropping them while the creator '
-         'releases its reference concurrently (ASan build and TSan build). non-trivial = history with an assignment over a non-empty handle '
-         'AND a destruction caused by a handle op; thread program with >= 2 threads; distinct by hash of the case',
+         'releases its reference concurrently (ASan build and TSan build). Objects own a handle to another object (next): link / unlink, and the '
+         'pop idioms h = h->next.ptr, h = h->next, h = std::move(h->next) with cascading destruction in the model. Shared-source rounds: 2..8 threads '
+         'acquire a reference (copy / refInc) at a spin barrier through ONE shared const handle that holds the only reference, 20..400 rounds per case, '
+         'useCount()==1+K checked every round. non-trivial = history with an assignment over a non-empty handle '
+         'AND a destruction caused by a handle op, or a pop that destroys the old head; thread program with >= 2 threads; distinct by hash of the case',
     floor=dict(quick=1500, thorough=15000),
     confirm_replays=10,
     assumptions=TRUST + ['thread interleavings are sampled; TSan happens-before analysis covers the executed accesses'],
